@@ -771,3 +771,57 @@ Qed.
 Theorem shuffle_group_empty_member_ok :
   shuffle_group [(0, [10; 20; 50]); (1, [])] [[1%nat; 0%nat]; []] = Some ([(0, [10; 40; 50]); (1, [])], [(10, 50)]).
 Proof. vm_compute. reflexivity. Qed.
+
+(* ------------------------------------------------------------------ *)
+(* jitter keep_tsupport = True as a multiset; the empty series            *)
+(* ------------------------------------------------------------------ *)
+Lemma Permutation_filter' {A} (p : A -> bool) l l' : Permutation l l' -> Permutation (filter p l) (filter p l').
+Proof.
+  induction 1; simpl.
+  - constructor.
+  - destruct (p x); [constructor|]; assumption.
+  - destruct (p x), (p y); try apply Permutation_refl. apply perm_swap.
+  - eapply Permutation_trans; eassumption.
+Qed.
+
+(* keep_tsupport = True, exactly: as a multiset the result is the stamps t_k + d_k that fall inside [s, e] *)
+Theorem jitter_keep_exact s e ts ds : s < e ->
+  Permutation (filter (insideb s e) (add_draws ts ds)) (fst (jitter_ts true s e ts ds)).
+Proof.
+  intros H. destruct (jitter_keep_spec s e ts ds H) as [E _]. rewrite E, jitter_free_fst.
+  apply Permutation_filter'. apply sortZ_perm.
+Qed.
+
+Lemma nth_add_draws ts : forall ds k, length ds = length ts -> (k < length ts)%nat ->
+  nth k (add_draws ts ds) 0 = nth k ts 0 + nth k ds 0.
+Proof.
+  unfold add_draws. induction ts as [|t r IH]; intros ds k Hl Hk; simpl in *; [lia|].
+  destruct ds as [|d ds']; simpl in *; [lia|]. destruct k; [reflexivity|]. apply IH; lia.
+Qed.
+
+(* ... hence every returned stamp is an input stamp moved by its own draw (at most J) and lies inside, and a stamp
+   that NO move of at most J can take out of [s, e] is never lost *)
+Theorem jitter_keep_members J s e ts ds : s < e -> length ds = length ts -> Forall (fun d => Z.abs d <= J) ds ->
+  (forall x, In x (fst (jitter_ts true s e ts ds)) ->
+     exists k, (k < length ts)%nat /\ x = nth k ts 0 + nth k ds 0 /\ Z.abs (x - nth k ts 0) <= J /\ inside s e x)
+  /\ (forall k, (k < length ts)%nat -> s + J <= nth k ts 0 <= e - J ->
+        In (nth k ts 0 + nth k ds 0) (fst (jitter_ts true s e ts ds))).
+Proof.
+  intros H Hl HJ. pose proof (jitter_keep_exact s e ts ds H) as P.
+  assert (La : length (add_draws ts ds) = length ts) by (apply add_draws_length; exact Hl).
+  assert (Hd : forall k, (k < length ts)%nat -> Z.abs (nth k ds 0) <= J).
+  { intros k Hk. rewrite Forall_forall in HJ. apply HJ. apply nth_In. lia. }
+  split.
+  - intros x Hx. apply (Permutation_in _ (Permutation_sym P)) in Hx. apply filter_In in Hx. destruct Hx as [Hin Hb].
+    destruct (In_nth _ _ 0 Hin) as [k [Hk Ek]]. rewrite La in Hk. rewrite nth_add_draws in Ek by assumption.
+    exists k. split; [exact Hk|]. split; [symmetry; exact Ek|]. specialize (Hd k Hk).
+    unfold inside, insideb in *. split; lia.
+  - intros k Hk Hr. apply (Permutation_in _ P). apply filter_In. split.
+    + rewrite <- (nth_add_draws ts ds k Hl Hk). apply nth_In. lia.
+    + specialize (Hd k Hk). unfold insideb. lia.
+Qed.
+
+Theorem empty_ts_spec s e sigma keep ds perm :
+  shift_ts s e sigma [] = ([], []) /\ resample_ts s e [] = ([], [])
+  /\ jitter_ts keep s e [] ds = ([], []) /\ shuffle_ts [] perm = Some ([], []).
+Proof. repeat split; destruct keep; reflexivity. Qed.
